@@ -139,6 +139,48 @@ func shortcutUnits() []unit {
 	return units
 }
 
+// ---- the allocation function with every input free ---------------------------
+
+func allocateUnits() []unit {
+	s := R.Sec("allocate-direct")
+	s.Bounds["what"] = "(*Cluster).allocate called directly (exported to the harness by a build-overlay file): peers 1..3, full metric alphabet, every positive factor pair, every current holder set with |cur| <= max, every priority list of <= 2 peers, excluded peer: none or any peer - holder or not, on the priority list or not"
+	var units []unit
+	for n := 1; n <= 3; n++ {
+		n := n
+		for _, alloc := range []string{"ascend", "descend"} {
+			alloc := alloc
+			units = append(units, unit{
+				name: fmt.Sprintf("allocate-n%d-%s", n, alloc),
+				opts: rigOpts{alloc: alloc, defMin: -1, defMax: -1},
+				body: func(r *rig) {
+					for _, st := range vectors(n, fullAlphabet) {
+						r.setMetrics(n, st, defaultNonNum)
+						for _, pr := range positivePairs {
+							for _, cur := range subsets(n) {
+								if len(cur) > pr.mx {
+									continue
+								}
+								for _, prio := range prioLists(n) {
+									for x := -1; x < n; x++ {
+										ex := "alloc"
+										if len(cur) == 0 {
+											ex = "none"
+										}
+										c := Case{N: n, St: st, Cur: cur, Existing: ex, Prio: prio, Min: pr.mn, Max: pr.mx,
+											DefMin: -1, DefMax: -1, Alloc: alloc, Entry: "allocate", Excluded: x}
+										r.evaluate("allocate-direct", c)
+									}
+								}
+							}
+						}
+					}
+				},
+			})
+		}
+	}
+	return units
+}
+
 // ---- cluster default factors ------------------------------------------------
 
 func defaultsUnits() []unit {
